@@ -39,24 +39,33 @@ def main() -> int:
     # ---- 1. build
     rc, log = engine.build()
     broken: list[dict] = []  # broken obligations / ties, each {"reason", "what", "detail"}
-    model_ok = rc in (0,)
+    # rc 3 = partial build: some Coq file does not check; build.sh removed the compiled form of
+    # those files and of everything depending on them and still built the driver when the
+    # model itself compiles.  A property is affected only if ITS file no longer compiles.
+    partial = rc == 3
+    driver_ok = (engine.COQ / "model" / "Driver.vo").exists() and \
+        (engine.COQ / "extract" / "build" / "d2p_driver").exists()
+    model_ok = rc == 0 or (partial and driver_ok)
     if rc == 2:
         broken.append({"reason": "translator", "what": "tools/gen_tables.py rejected /repo's source",
                        "detail": log[-1500:]})
-    elif rc == 3:
-        broken.append({"reason": "proof", "what": "Coq build of model/proofs failed", "detail": log[-3000:]})
     elif rc == 4:
         broken.append({"reason": "proof", "what": "extraction / driver build failed", "detail": log[-1500:]})
-    elif rc != 0:
+    elif rc not in (0, 3):
         broken.append({"reason": "proof", "what": f"build.sh rc={rc}", "detail": log[-1500:]})
+    elif partial and not driver_ok:
+        broken.append({"reason": "proof", "what": "Coq build of the model failed", "detail": log[-3000:]})
 
     # ---- 2. property file + audit
     comp = None
-    if rc == 0:
+    if rc in (0, 3):
         comp = engine.compile_property(prop)
         if not comp["ok"]:
-            broken.append({"reason": "proof", "what": f"{comp['file']} does not check",
-                           "detail": comp["error"]})
+            what = f"{comp['file']} does not check"
+            if partial:
+                what += " (a file it depends on no longer compiles against /repo's current source: see detail)"
+            broken.append({"reason": "proof", "what": what,
+                           "detail": (comp["error"] or "") + ("\n--- build log ---\n" + log[-3000:] if partial else "")})
         else:
             opened = engine.open_assumptions(comp)
             if opened:
@@ -83,7 +92,7 @@ def main() -> int:
     #       "corr_broken": [payload...], "known": [(id, what)...], ...}
     # extraction / driver glue: re-evaluate the smallest cases with vm_compute inside Coq
     xpairs = run.pop("_xcheck", [])
-    if rc == 0 and xpairs:
+    if model_ok and xpairs:
         xc = engine.vm_crosscheck(prop, xpairs, 3 if args.tier == "quick" else 25)
         run["vm_compute_crosscheck"] = {"cases": xc["checked"], "mismatches": len(xc["mismatches"])}
         if xc["mismatches"]:
